@@ -1316,6 +1316,29 @@ pub fn run_program<P: Payload>(prog: &Program) -> RunOut {
     let tabs = Arc::new(Tables {
         handles: tabs.into_iter().map(UnsafeCell::new).collect(),
     });
+    // re-entrant payloads: their destructor calls len() on some live handle of this channel
+    {
+        let mut g = payload::REENTRY.lock().unwrap_or_else(|e| e.into_inner());
+        *g = None;
+        if P::REENTRANT {
+            let tb = tabs.clone();
+            *g = Some(Arc::new(move || {
+                for cell in tb.handles.iter() {
+                    // read-only peek; one virtual thread runs at a time
+                    let tab = unsafe { &*cell.get() };
+                    for h in tab.iter().flatten() {
+                        let _ = match h {
+                            H::S(x) => x.len(),
+                            H::AS(x) => x.len(),
+                            H::R(x) => x.len(),
+                            H::AR(x) => x.len(),
+                        };
+                        return;
+                    }
+                }
+            }));
+        }
+    }
     let mut bodies: Vec<Box<dyn FnOnce() + Send>> = Vec::new();
     for (t, ops) in prog.threads.iter().enumerate() {
         let ops = ops.clone();
@@ -1337,6 +1360,7 @@ pub fn run_program<P: Payload>(prog: &Program) -> RunOut {
         },
         bodies,
     );
+    *payload::REENTRY.lock().unwrap_or_else(|e| e.into_inner()) = None;
     // teardown: on a complete run every handle is already gone; otherwise leak.
     if outcome.end == rt::End::Complete {
         match Arc::try_unwrap(tabs) {
@@ -1378,5 +1402,6 @@ pub fn run_any(prog: &Program) -> RunOut {
         Pay::PB => run_program::<PB>(prog),
         Pay::PBIG => run_program::<PBIG>(prog),
         Pay::PA64 => run_program::<PA64>(prog),
+        Pay::PH => run_program::<PH>(prog),
     }
 }
